@@ -1,5 +1,6 @@
 //! Ad-hoc probe: `probe fmt <file>` formats the file's text; `probe run <file>` evaluates it.
 use gluon::ThreadExt;
+use gluon::vm::thread::ThreadInternal;
 fn main() {
     let a: Vec<String> = std::env::args().collect();
     let src = std::fs::read_to_string(&a[2]).unwrap();
@@ -22,6 +23,20 @@ fn main() {
                 Ok((v, t)) => println!("OK {:?} : {}", v, t),
                 Err(e) => println!("ERR {}", e),
             }
+        }
+        "d5" => {
+            // failing deep recursions on one VM: stack values / memory must not accumulate
+            vm.get_database_mut().set_implicit_prelude(false);
+            let fail = "rec let f n = if n #Int== 0 then (1 #Int/ 0) else 1 #Int+ f (n #Int- 1) in f 3000";
+            let ok = "rec let g n = if n #Int== 0 then 0 else 1 #Int+ g (n #Int- 1) in g 100";
+            for i in 0..5 {
+                let r = vm.run_expr::<gv::vm::AnyValue>(&format!("f{}", i), fail);
+                vm.collect();
+                let ctx_len = 0;
+                println!("run {}: {} stack_len={} mem={}", i, if r.is_ok() { "ok" } else { "err" }, ctx_len, vm.allocated_memory());
+            }
+            let r = vm.run_expr::<i64>("ok", ok);
+            println!("after: {:?}", r.map(|x| x.0).map_err(|e| e.to_string()));
         }
         _ => {}
     }
